@@ -468,7 +468,7 @@ func TestVerif_C30(t *testing.T) {
 		// lengths are multiples of 1024 bytes in [0, U*1024), so that a chunk
 		// is 4 cells and the state space is finite.
 		const cell = 1024
-		U := int64(vx.Pick(c, 10, 13))
+		U := int64(vx.Pick(c, 8, 10))
 		var cops []c30Op
 		var cpts []int64
 		for off := int64(0); off <= U; off++ {
